@@ -27,6 +27,16 @@ func genericWrapsMarshaledStruct(src string) bool {
 func c06One(c *Ctx, b *Batch, pkg string, cs respCase, respType string, ex *executor, js []byte) {
 	c.Res.Eval()
 	fail := func(class, what string, impl any) {
+		if class == "remarshal-lost-key" || class == "roundtrip-not-equal" || class == "remarshal-differs" {
+			cd := &codecDeriver{d: parseGoDecls(b.Pkgs[pkg].Src)}
+			if ty := cd.structTy(respType); sameKeyDifferentTypes(ty) {
+				// one response key carried by the struct and by an embedded fragment (or by two fragments) with
+				// DIFFERENT sub-selections: MarshalJSON writes only the first of them (known finding F-06k)
+				class += ":same-key-different-subselections"
+			} else if hasFoldTwinKeys(string(js)) {
+				class += ":fold-twin-keys"
+			}
+		}
 		if cs.Cfg.Optional == "generic" && (class == "remarshal-lost-key" || class == "roundtrip-not-equal") && genericWrapsMarshaledStruct(string(b.Pkgs[pkg].Src)) {
 			// a struct wrapped BY VALUE in the generic optional type is marshaled without its generated
 			// (pointer-receiver) MarshalJSON: keys of fields handled by generated marshalers are lost
